@@ -38,6 +38,11 @@ def run(chk):
     chk.assume("that one wrap cell suffices for every validity pattern / ring length, commutation with cyclic shifts and all "
                "rounding are not decided")
 
+AUTOMUT_TRIAGE = [
+    (r"Field\.pad$", r"drop keyword (vdims|unit|vdim_mapping)=", "metadata of the padded intermediate is never read: diff rebuilds "
+     "its result from self (C04.D5 kw rules); padding's own metadata is not this property"),
+]
+
 
 # ------------------------------------------------------------------ stencil algebra (E8)
 def coeffs(v, t, arr):
@@ -108,6 +113,27 @@ def d1_stencils(chk, repo):
                     is_const(v.ctx, te[0][2].get("edge_order", v.ctx.const(0)), 2)
     chk.ob("operators._1d_diff::edge-order-by-length", ok_sel, "C04.D1",
            "edge_order must be 1 exactly for runs shorter than three cells and 2 otherwise", v.f)
+    # which formula for which order
+    order = v.spec("order")
+    oid = order.single_atom()
+    from ..lib import _eval_bool
+
+    def reached(st, k):
+        for test, pol in v.cfg.path_condition(st):
+            b = _eval_bool(v.ctx, v.ev.term(test, at=geom._if_stmt(v, test)), {oid: Fraction(k)})
+            if b is not None and b != pol:
+                return False
+        return True
+    for st in v.stmts():
+        if not isinstance(st, ast.Assign):
+            continue
+        c = decode_call(v.ctx, v.term(st.value, at=st))
+        if c and c[0] in ("np.gradient", "np.convolve"):
+            k = 1 if c[0] == "np.gradient" else 2
+            okd = reached(st, k) and not reached(st, 3 - k)
+            chk.ob(f"operators._1d_diff::{c[0]}-for-order-{k}", okd, "C04.D1",
+                   f"`{v.src(st)[:60]}` is reached under {[(ast.unparse(t_), p_) for t_, p_ in v.cfg.path_condition(st)]}; "
+                   f"it must run for order {k} and not for order {3 - k}", v.f, st)
     # second derivative
     ok2 = len(second) == 1
     inner = None
@@ -425,6 +451,32 @@ def d5_field_diff(chk, repo):
     # Field.pad consistency (data, validity, mesh driven by one width map)
     p = FV(repo, "field.Field.pad")
     for rr, aa in cm.returned_news(p):
+        for kw, src in (("value", "self.array"), ("valid", "self.valid")):
+            got = aa.get(kw)
+            c = decode_call(p.ctx, got) if got is not None else None
+            okp = False
+            det = f"{kw}={p.show(got)[:200]}"
+            if c and c[0] == "np.pad" and len(c[1]) >= 2:
+                sq = decode_call(p.ctx, c[1][1])
+                if sq and sq[0] == "dfu.assemble_index" and len(sq[1]) == 3:
+                    widths = sq[1][2]
+                    bases = strip_stores(p.ctx, widths)
+                    st_ = stores_of(p.ctx, widths)
+                    item = p.ctx.mk(("iter", ()), (p.spec("pad_width.items()"),))
+                    k_ = p.ctx.mk(("unpack", 0), (item,))
+                    w_ = p.ctx.mk(("unpack", 1), (item,))
+                    okd = len(st_) == 1 and p.eq(st_[0][0], p.spec("self.mesh.region._dim2index(k)", env={"k": k_})) and \
+                        p.eq(st_[0][1], w_) and all((p.ctx.head_of(b) or ("",))[0] == "dict" and not p.ctx.args_of(b) for b in bases)
+                    want = p.spec(f"np.pad({src}, dfu.assemble_index((0, 0), len({src}.shape), D), mode=mode, **kwargs)",
+                                  env={"D": widths})
+                    okp = okd and p.eq(got, want)
+                    if not okd:
+                        det += f"; width map stores {[(p.show(i), p.show(x)) for i, x in st_]}"
+            chk.ob(f"field.Field.pad::{kw}-padded-along-named-axes", okp, "C04.D5",
+                   f"{det}; expected np.pad({src}, widths (0, 0) on every axis except those named in pad_width, mode=mode)",
+                   p.f, rr)
+        chk.ob("field.Field.pad::nvdim", aa.get("nvdim") is not None and p.eq(aa["nvdim"], p.spec("self.nvdim")), "C04.D5",
+               f"nvdim={p.show(aa.get('nvdim'))}", p.f, rr)
         okm = aa.get("mesh") is not None and v.eq is not None and p.eq(aa["mesh"], p.spec("self.mesh.pad(pad_width)"))
         chk.ob("field.Field.pad::mesh-padded-with-same-widths", okm, "C04.D5",
                f"mesh={p.show(aa.get('mesh'))}; expected self.mesh.pad(pad_width)", p.f, rr)
